@@ -60,6 +60,31 @@ func join(a, b org) org {
 var perCall = map[string]bool{"*Lexer": true, "*Parser": true, "*byExprFloat": true, "*byExprString": true}
 var sorters = map[string]bool{"*byExprFloat": true, "*byExprString": true}
 
+// isSorter: a pointer to a package struct type with the methods of sort.Interface (Len, Less, Swap) — the
+// two sorters of functions.go by name, and any type of the same shape a rewrite introduces.
+func (a *analyzer) isSorter(t types.Type) bool {
+	if sorters[a.typeName(t)] {
+		return true
+	}
+	pt, ok := t.(*types.Pointer)
+	if !ok {
+		return false
+	}
+	if _, ok := pt.Elem().Underlying().(*types.Struct); !ok {
+		return false
+	}
+	ms := a.prog.MethodSets.MethodSet(t)
+	n := 0
+	for _, name := range []string{"Len", "Less", "Swap"} {
+		if ms.Lookup(a.pkg.Pkg, name) != nil {
+			n++
+		}
+	}
+	return n == 3
+}
+
+func (a *analyzer) isPerCall(t types.Type) bool { return perCall[a.typeName(t)] || a.isSorter(t) }
+
 // pointerLike reports whether a value of type t can give access to shared
 // mutable memory.  Strings are immutable and count as plain values.
 func pointerLike(t types.Type) bool {
@@ -203,12 +228,21 @@ func (a *analyzer) param(v *ssa.Parameter) org {
 	fn := v.Parent()
 	if fn.Signature.Recv() != nil && len(fn.Params) > 0 && fn.Params[0] == v {
 		tn := a.typeName(v.Type())
-		if perCall[tn] && a.bad[tn] == "" {
+		if a.isPerCall(v.Type()) && a.bad[tn] == "" {
 			return org{CallLocal, v.Name(), "receiver " + tn + ", per-call object"}
 		}
 		why := "receiver " + tn
-		if perCall[tn] {
+		if a.isPerCall(v.Type()) {
 			why += ", not per-call: " + a.bad[tn]
+		} else if !a.entryRecv[tn] && a.recvSites[v] {
+			// a method of a type none of whose methods is an entry point, called inside the package: the
+			// receiver is the join of the receiver operands at all its call sites (a method that only the
+			// constructor calls on the object it has just allocated writes to a fresh object)
+			o, ok := a.recvOrg[v]
+			if !ok {
+				o = org{Fresh, v.Name(), "no call site evaluated yet"}
+			}
+			return org{o.o, v.Name(), "receiver of " + fnName(fn) + ", worst call site passes " + clip(o.path, 40) + " [" + firstClause(o.why) + "]"}
 		}
 		return org{Receiver, v.Name(), why}
 	}
